@@ -8,8 +8,7 @@ META = {
     "assumptions": ["A-REAL", "A-T", "A-IND", "A-DEEPCOPY", "A-DET", "A-SOLVER", "A-ENGINE"],
     "explanation": "The mechanism clauses of StrategyBase.update are proved on the real body for every node: a paper-traded sub-strategy's index is its paper copy's index (and the row records it); "
     "the paper copy - a separate tree whose root it is - is stepped exactly update(date); run(); update(date) on a new date and not at all otherwise; a root is never paper-stepped; nothing the "
-    "parent does writes into the paper tree (frame); each strategy child's index is published in the parent's universe column at the current row. AST obligations: setup builds the paper copy "
-    "by deepcopy, makes it its own root, sets it up with the same data/kwargs and funds it with exactly Backtest's default initial capital. The equality with a stand-alone Backtest run is then "
+    "parent does writes into the paper tree (frame); each strategy child's index is published in the parent's universe column at the current row. Shadow-copy wiring, decided by tolerant symbolic execution of the real setup / Backtest.__init__ bodies with copy.deepcopy modelled as a fresh, disjoint object (A-DEEPCOPY) - no source spelling involved: a non-root strategy makes exactly one deep copy of itself (a root none), stores it as _paper, makes it its own parent and the root of its whole subtree (_set_root), switches its own paper flag off, sets it up on the same universe and kwargs and then funds it once with exactly 1000000 - which is Backtest's default initial capital (read from the real signature); Backtest.__init__ keeps one deep copy of the template, installs integer mode and (iff given) the commission function on that copy before run() calls setup, never calls or writes the template; Backtest.run changes no setting after setup. The equality with a stand-alone Backtest run is then "
     "the trace argument of DESIGN.md 4 (C09): same deterministic steps from an equal initial state.",
 }
 MANIFEST_ENTRY = {
@@ -21,7 +20,7 @@ MANIFEST_ENTRY = {
 
 
 def tasks(tier, seed):
-    return [*UPDATE_ALL, func("bt.backtest.Backtest.run"), dict(kind="custom", module="props.misc_tasks", fn="c09_constants"), dict(kind="custom", module="props.c04_tasks", fn="setup_clauses")]
+    return [*UPDATE_ALL, func("bt.backtest.Backtest.run"), dict(kind="custom", module="props.misc_tasks", fn="c09_constants"), dict(kind="custom", module="props.misc_tasks", fn="backtest_init_task"), dict(kind="custom", module="props.c04_tasks", fn="setup_clauses")]
 
 
 def replay(o):
